@@ -42,6 +42,8 @@ pub struct Node {
     pub main: bool,
     pub pre: Pre,
     pub body: Body,
+    /// a blocking task (`spawn_blocking` / `spawn_bg_blocking`; a nested scope inside it is `run_blocking!`)
+    pub blocking: bool,
 }
 
 #[derive(Clone, Copy, Debug, PartialEq, Eq, Hash)]
@@ -63,6 +65,8 @@ pub struct Program {
     pub children: Vec<Node>,
     pub root: Body,
     pub mode: Mode,
+    /// the outer scope is `wait_blocking(|| run_blocking!(..))` with a blocking root instead of `run!`
+    pub root_blocking: bool,
 }
 
 #[derive(Clone, Debug, PartialEq)]
@@ -90,6 +94,9 @@ type BoxFut<'a, T> = Pin<Box<dyn Future<Output = T> + Send + 'a>>;
 struct Env {
     log: Log,
     ids: Mutex<Ids>,
+    /// identity of this execution (program index, thorough family, deviations, program) for a verdict that
+    /// has to be issued from inside the execution
+    ident: (usize, bool, core::Deviations, String),
 }
 
 impl Env {
@@ -100,6 +107,28 @@ impl Env {
         let mut g = self.ids.lock().unwrap();
         g.next_task += 1;
         g.next_task
+    }
+    /// Logs that `run!` / `run_blocking!` of `scope` has been left (returned or re-raised a panic). If a task of
+    /// that scope has not finished, the property is violated *and* continuing is undefined behaviour (the task
+    /// borrows the frame that has just been left): the verdict is issued at once and the process ends.
+    fn scope_left(&self, scope: u32, result: String) {
+        self.ev(Ev::ScopeEnd { scope, result: result.clone() });
+        let lg = self.log.lock().unwrap().clone();
+        for ev in &lg {
+            let Ev::Spawn { scope: sc, task, .. } = ev else { continue };
+            if *sc != scope || lg.iter().any(|e| matches!(e, Ev::End { task: t, .. } if t == task)) {
+                continue;
+            }
+            let (idx, thorough, devs, prog) = &self.ident;
+            let what = format!("scope {scope} was left (result {result}) before its task {task} finished\n  program: {prog}\n  events: {lg:?}");
+            core::early_verdict(
+                "C17",
+                &format!("c17:scope {scope} was left before its task finished"),
+                what,
+                json!({"harness": "c17", "config": {"program_index": idx, "thorough": thorough, "program": prog}, "deviations": devs}),
+                "a scope was left while one of its tasks was still running: the task borrows the frame that was left, so running on would be undefined behaviour",
+            );
+        }
     }
     fn scope_id(&self) -> u32 {
         let mut g = self.ids.lock().unwrap();
@@ -143,11 +172,107 @@ async fn run_body(ctx: &ctx::Ctx, env: &Env, task: u32, scope_id: u32, body: Bod
 fn spawn_node<'env>(ctx: &'env ctx::Ctx, s: &'env scope::Scope<'env, u32>, env: &'env Env, scope_id: u32, node: &'env Node) {
     let task = env.task_id();
     env.ev(Ev::Spawn { scope: scope_id, task, main: node.main });
+    if node.blocking {
+        if node.main {
+            s.spawn_blocking(move || run_node_blocking(ctx, s, env, scope_id, task, node));
+        } else {
+            s.spawn_bg_blocking(move || run_node_blocking(ctx, s, env, scope_id, task, node));
+        }
+        return;
+    }
     let fut = run_node(ctx, s, env, scope_id, task, node);
     if node.main {
         s.spawn(fut);
     } else {
         s.spawn_bg(fut);
+    }
+}
+
+/// A blocking task's only way to wait: `Handle::block_on` (what `ctx::block_on` / `CtxAware::block` do). Under
+/// the blocking gate of the vendored tokio this hands control back to the scheduler when the future is pending.
+fn block_on<F: Future>(f: F) -> F::Output {
+    tokio::runtime::Handle::current().block_on(f)
+}
+
+fn run_body_blocking(ctx: &ctx::Ctx, env: &Env, task: u32, scope_id: u32, body: Body) -> Result<(), u32> {
+    match body {
+        Body::Ok => {
+            block_on(sched::yield_now());
+            env.ev(Ev::End { task, scope: scope_id, outcome: "ok" });
+            Ok(())
+        }
+        Body::Err => {
+            block_on(sched::yield_now());
+            env.ev(Ev::End { task, scope: scope_id, outcome: "err" });
+            Err(task)
+        }
+        Body::Panic => {
+            block_on(sched::yield_now());
+            env.ev(Ev::End { task, scope: scope_id, outcome: "panic" });
+            panic!("task {task} panics");
+        }
+        Body::WaitOk => {
+            ctx.canceled().block();
+            env.ev(Ev::SawCancel { task });
+            env.ev(Ev::End { task, scope: scope_id, outcome: "ok" });
+            Ok(())
+        }
+        Body::WaitErr => {
+            ctx.canceled().block();
+            env.ev(Ev::SawCancel { task });
+            env.ev(Ev::End { task, scope: scope_id, outcome: "err" });
+            Err(task)
+        }
+    }
+}
+
+fn run_node_blocking<'env>(ctx: &'env ctx::Ctx, s: &'env scope::Scope<'env, u32>, env: &'env Env, scope_id: u32, task: u32, node: &'env Node) -> Result<(), u32> {
+    env.ev(Ev::Start { task });
+    match &node.pre {
+        Pre::None => {}
+        Pre::Spawn(child) => spawn_node(ctx, s, env, scope_id, child),
+        Pre::Nested(child, root_body) => {
+            let r = std::panic::catch_unwind(std::panic::AssertUnwindSafe(|| run_scope_blocking(ctx, env, scope_id, std::slice::from_ref(&**child), *root_body)));
+            match r {
+                Err(_) => {
+                    env.ev(Ev::End { task, scope: scope_id, outcome: "panic" });
+                    panic!("task {task}: nested scope panicked");
+                }
+                Ok(Err(e)) => {
+                    env.ev(Ev::End { task, scope: scope_id, outcome: "err" });
+                    return Err(e);
+                }
+                Ok(Ok(())) => {}
+            }
+        }
+    }
+    run_body_blocking(ctx, env, task, scope_id, node.body)
+}
+
+/// Runs one real blocking scope (`run_blocking!`) with the given children and a blocking root. Panics propagate.
+fn run_scope_blocking(ctx: &ctx::Ctx, env: &Env, parent: u32, children: &[Node], root: Body) -> Result<(), u32> {
+    let scope_id = env.scope_id();
+    env.ev(Ev::ScopeStart { scope: scope_id, parent });
+    let root_task = env.task_id();
+    env.ev(Ev::Spawn { scope: scope_id, task: root_task, main: true });
+    let res = std::panic::catch_unwind(std::panic::AssertUnwindSafe(|| {
+        scope::run_blocking!(ctx, |ctx, s| {
+            env.ev(Ev::Start { task: root_task });
+            for c in children {
+                spawn_node(ctx, s, env, scope_id, c);
+            }
+            run_body_blocking(ctx, env, root_task, scope_id, root)
+        })
+    }));
+    match res {
+        Ok(res) => {
+            env.scope_left(scope_id, format!("{res:?}"));
+            res
+        }
+        Err(p) => {
+            env.scope_left(scope_id, "panic".into());
+            std::panic::resume_unwind(p)
+        }
     }
 }
 
@@ -184,15 +309,22 @@ fn run_scope<'a>(ctx: &'a ctx::Ctx, env: &'a Env, parent: u32, children: &'a [No
         env.ev(Ev::ScopeStart { scope: scope_id, parent });
         let root_task = env.task_id();
         env.ev(Ev::Spawn { scope: scope_id, task: root_task, main: true });
-        let res = scope::run!(ctx, |ctx, s| async move {
+        let res = CatchUnwind(Box::pin(scope::run!(ctx, |ctx, s| async move {
             env.ev(Ev::Start { task: root_task });
             for c in children {
                 spawn_node(ctx, s, env, scope_id, c);
             }
             run_body(ctx, env, root_task, scope_id, root).await
-        })
+        })))
         .await;
-        env.ev(Ev::ScopeEnd { scope: scope_id, result: format!("{res:?}") });
+        let res = match res {
+            Ok(res) => res,
+            Err(_) => {
+                env.scope_left(scope_id, "panic".into());
+                panic!("scope {scope_id} re-raised a panic");
+            }
+        };
+        env.scope_left(scope_id, format!("{res:?}"));
         res
     })
 }
@@ -229,6 +361,20 @@ fn oracle(p: &Program, log: &[Ev], fin: &Final, cancel_was_forced: bool) -> Opti
             let ended = log[..ep].iter().any(|e| matches!(e, Ev::End { task, .. } if task == t));
             if !ended {
                 return Some(format!("scope returned before task {t} finished"));
+            }
+        }
+    }
+    // (1b) the same for every nested scope: when `run!` / `run_blocking!` is left - by returning or by re-raising a
+    // panic - every task spawned in that scope has finished
+    for (i, e) in log.iter().enumerate() {
+        let Ev::ScopeEnd { scope: sc, result } = e else { continue };
+        for ev in log.iter() {
+            let Ev::Spawn { scope, task, .. } = ev else { continue };
+            if scope != sc {
+                continue;
+            }
+            if !log[..i].iter().any(|e| matches!(e, Ev::End { task: t, .. } if t == task)) {
+                return Some(format!("scope {sc} was left (result {result}) before its task {task} finished"));
             }
         }
     }
@@ -304,9 +450,19 @@ fn mains_done(log: &[Ev], scope: u32) -> bool {
     !mains.is_empty() && mains.iter().all(|t| log.iter().any(|e| matches!(e, Ev::End { task, .. } if task == t)))
 }
 
-fn run_program(ch: &Ch, p: &Program) -> ExecResult {
+fn run_program(ch: &Ch, p: &Program, idx: usize, thorough: bool) -> ExecResult {
     let log: Log = Default::default();
-    let env = Env { log: log.clone(), ids: Default::default() };
+    let env = Env { log: log.clone(), ids: Default::default(), ident: (idx, thorough, ch.borrow().deviations(), format!("{p:?}")) };
+    // blocking tasks run under the blocking gate of the vendored tokio: one thread at a time, the chooser
+    // decides when each blocking closure starts and continues
+    struct GateOff;
+    impl Drop for GateOff {
+        fn drop(&mut self) {
+            tokio::verif_sched::set_gate(false);
+        }
+    }
+    tokio::verif_sched::set_gate(true);
+    let _gate_off = GateOff;
     let (fin, forced) = sched::run(ch, |idle| async move {
         let clock = ctx::ManualClock::new();
         let root = ctx::test_root(&clock);
@@ -337,7 +493,12 @@ fn run_program(ch: &Ch, p: &Program) -> ExecResult {
             } else {
                 ctx
             };
-            let mut fut = CatchUnwind(Box::pin(run_scope(caller, env, 0, &p.children, p.root)));
+            let body: BoxFut<'_, Result<(), u32>> = if p.root_blocking {
+                Box::pin(scope::wait_blocking(move || run_scope_blocking(caller, env, 0, &p.children, p.root)))
+            } else {
+                run_scope(caller, env, 0, &p.children, p.root)
+            };
+            let mut fut = CatchUnwind(Box::pin(body));
             let mut forced = false;
             let mut idles = 0;
             let mut seen = idle.generation();
@@ -404,15 +565,15 @@ fn run_program(ch: &Ch, p: &Program) -> ExecResult {
 const BODIES: [Body; 5] = [Body::Ok, Body::Err, Body::Panic, Body::WaitOk, Body::WaitErr];
 
 fn programs(thorough: bool) -> Vec<Program> {
-    let simple: Vec<Node> = [true, false].iter().flat_map(|m| BODIES.iter().map(move |b| Node { main: *m, pre: Pre::None, body: *b })).collect();
+    let simple: Vec<Node> = [true, false].iter().flat_map(|m| BODIES.iter().map(move |b| Node { main: *m, pre: Pre::None, body: *b, blocking: false })).collect();
     let then_bodies = [Body::Ok, Body::Err, Body::WaitOk];
     let mut complex: Vec<Node> = vec![];
     for main in [true, false] {
         for gm in [true, false] {
             for gb in BODIES {
                 for tb in then_bodies {
-                    complex.push(Node { main, pre: Pre::Spawn(Box::new(Node { main: gm, pre: Pre::None, body: gb })), body: tb });
-                    complex.push(Node { main, pre: Pre::Nested(Box::new(Node { main: gm, pre: Pre::None, body: gb }), if gm { Body::Ok } else { Body::WaitOk }), body: tb });
+                    complex.push(Node { main, pre: Pre::Spawn(Box::new(Node { main: gm, pre: Pre::None, body: gb, blocking: false })), body: tb, blocking: false });
+                    complex.push(Node { main, pre: Pre::Nested(Box::new(Node { main: gm, pre: Pre::None, body: gb, blocking: false }), if gm { Body::Ok } else { Body::WaitOk }), body: tb, blocking: false });
                 }
             }
         }
@@ -422,22 +583,22 @@ fn programs(thorough: bool) -> Vec<Program> {
     for &mode in modes {
         for root in BODIES {
             // zero / one / two simple children
-            out.push(Program { children: vec![], root, mode });
+            out.push(Program { children: vec![], root, mode, root_blocking: false });
             for a in &simple {
-                out.push(Program { children: vec![a.clone()], root, mode });
+                out.push(Program { children: vec![a.clone()], root, mode, root_blocking: false });
                 if mode == Mode::Plain || thorough {
                     for b in &simple {
-                        out.push(Program { children: vec![a.clone(), b.clone()], root, mode });
+                        out.push(Program { children: vec![a.clone(), b.clone()], root, mode, root_blocking: false });
                     }
                 }
             }
             // one complex child (+ one simple child)
             if mode == Mode::Plain || mode == Mode::CallerCancel || mode == Mode::FarDeadline || thorough {
                 for c in &complex {
-                    out.push(Program { children: vec![c.clone()], root, mode });
+                    out.push(Program { children: vec![c.clone()], root, mode, root_blocking: false });
                     if thorough || (mode == Mode::Plain && matches!(root, Body::Ok | Body::WaitOk)) {
                         for b in simple.iter().filter(|b| thorough || matches!(b.body, Body::Err | Body::Panic | Body::WaitErr)) {
-                            out.push(Program { children: vec![c.clone(), b.clone()], root, mode });
+                            out.push(Program { children: vec![c.clone(), b.clone()], root, mode, root_blocking: false });
                         }
                     }
                 }
@@ -450,7 +611,76 @@ fn programs(thorough: bool) -> Vec<Program> {
             for a in &simple {
                 for b in &simple {
                     for c in &simple {
-                        out.push(Program { children: vec![a.clone(), b.clone(), c.clone()], root, mode: Mode::Plain });
+                        out.push(Program { children: vec![a.clone(), b.clone(), c.clone()], root, mode: Mode::Plain, root_blocking: false });
+                    }
+                }
+            }
+        }
+    }
+    out
+}
+
+/// Programs with at least one *blocking* task (`spawn_blocking` / `spawn_bg_blocking` / `run_blocking!` /
+/// `wait_blocking`), explored under the blocking gate like the async family.
+fn programs_blocking(thorough: bool) -> Vec<Program> {
+    let simple: Vec<Node> = [true, false]
+        .iter()
+        .flat_map(|m| BODIES.iter().flat_map(move |b| [false, true].into_iter().map(move |bl| Node { main: *m, pre: Pre::None, body: *b, blocking: bl })))
+        .collect();
+    let then_bodies = [Body::Ok, Body::Err, Body::WaitOk];
+    let mut complex: Vec<Node> = vec![];
+    for main in [true, false] {
+        for gm in [true, false] {
+            for gb in BODIES {
+                for tb in then_bodies {
+                    for (pb, cb) in [(true, true), (true, false), (false, true)] {
+                        complex.push(Node { main, pre: Pre::Spawn(Box::new(Node { main: gm, pre: Pre::None, body: gb, blocking: cb })), body: tb, blocking: pb });
+                        // a nested scope is run!() in an async task and run_blocking!() in a blocking task
+                        complex.push(Node { main, pre: Pre::Nested(Box::new(Node { main: gm, pre: Pre::None, body: gb, blocking: cb }), if gm { Body::Ok } else { Body::WaitOk }), body: tb, blocking: pb });
+                    }
+                }
+            }
+        }
+    }
+    fn has_blocking(n: &Node) -> bool {
+        n.blocking
+            || match &n.pre {
+                Pre::None => false,
+                Pre::Spawn(c) | Pre::Nested(c, _) => has_blocking(c),
+            }
+    }
+    let mut out = vec![];
+    let modes: &[Mode] = &[Mode::Plain, Mode::CallerCancel, Mode::Deadline, Mode::AlreadyCancelled, Mode::FarDeadline];
+    for &mode in modes {
+        for root in BODIES {
+            for root_blocking in [false, true] {
+                let keep = |p: &Program| p.root_blocking || p.children.iter().any(has_blocking);
+                let mut push = |p: Program| {
+                    if keep(&p) {
+                        out.push(p)
+                    }
+                };
+                push(Program { children: vec![], root, mode, root_blocking });
+                for a in &simple {
+                    push(Program { children: vec![a.clone()], root, mode, root_blocking });
+                    // quick: two blocking children, root Ok / Err
+                    let two = if thorough { mode == Mode::Plain || mode == Mode::CallerCancel } else { mode == Mode::Plain && a.blocking && matches!(root, Body::Ok | Body::Err) };
+                    if two {
+                        for b in simple.iter().filter(|b| thorough || b.blocking) {
+                            push(Program { children: vec![a.clone(), b.clone()], root, mode, root_blocking });
+                        }
+                    }
+                }
+                // quick: one complex child whose flavour is that of the root, root Ok / WaitOk, caller passive
+                let cx = if thorough { true } else { mode == Mode::Plain && matches!(root, Body::Ok | Body::WaitOk) };
+                if cx {
+                    for c in complex.iter().filter(|c| thorough || c.blocking == root_blocking) {
+                        push(Program { children: vec![c.clone()], root, mode, root_blocking });
+                        if thorough && mode == Mode::Plain && matches!(root, Body::Ok | Body::WaitOk) {
+                            for b in simple.iter().filter(|b| b.blocking && matches!(b.body, Body::Err | Body::Panic | Body::WaitErr)) {
+                                push(Program { children: vec![c.clone(), b.clone()], root, mode, root_blocking });
+                            }
+                        }
                     }
                 }
             }
@@ -715,9 +945,10 @@ pub fn run(args: &Args) -> Report {
         }
         let idx = rp["config"]["program_index"].as_u64().unwrap_or(0) as usize;
         let thorough = rp["config"]["thorough"].as_bool().unwrap_or(false);
-        let ps = programs(thorough);
+        let mut ps = programs(thorough);
+        ps.extend(programs_blocking(thorough));
         let devs: core::Deviations = rp["deviations"].as_array().map(|a| a.iter().map(|p| (p[0].as_u64().unwrap() as u32, p[1].as_u64().unwrap() as u32)).collect()).unwrap_or_default();
-        let (res, div) = core::replay_one(&|ch: &Ch| run_program(ch, &ps[idx]), devs);
+        let (res, div) = core::replay_one(&|ch: &Ch| run_program(ch, &ps[idx], idx, thorough), devs);
         if let Some(d) = div {
             rep.machinery_errors.push(d);
         }
@@ -727,25 +958,38 @@ pub fn run(args: &Args) -> Report {
         return rep;
     }
     let thorough = args.tier == core::Tier::Thorough;
-    let ps = if std::env::var("VERIF_C17_ONLY_THREADS").is_ok() { programs(thorough).into_iter().take(1).collect() } else { programs(thorough) };
+    let mut ps = programs(thorough);
+    let n_async = ps.len();
+    ps.extend(programs_blocking(thorough));
+    // development switches: explore only one family (indices still refer to the whole list)
+    let selected: Vec<usize> = if std::env::var("VERIF_C17_ONLY_THREADS").is_ok() {
+        vec![0]
+    } else if std::env::var("VERIF_C17_ONLY_BLOCKING").is_ok() {
+        (n_async..ps.len()).collect()
+    } else {
+        (0..ps.len()).collect()
+    };
+    let n_blocking_programs = selected.iter().filter(|i| **i >= n_async).count();
     let bound = args.tier.pick(2, 3);
     let budget = Duration::from_secs(args.tier.pick(45, 1200));
     let t0 = std::time::Instant::now();
     // programs are explored one after another, each with all 16 workers? cheaper: one worker per
     // program, programs in parallel
-    let results = core::par_map(ps.len(), |i| {
+    let results = core::par_map(selected.len(), |k| {
+        let i = selected[k];
         if t0.elapsed() > budget {
             return None;
         }
         let mut cfg = ExploreCfg::new(&format!("scope[{i}]"), bound, budget.saturating_sub(t0.elapsed()));
         cfg.workers = 1;
-        Some(explore(&cfg, |ch| run_program(ch, &ps[i])))
+        Some(explore(&cfg, |ch| run_program(ch, &ps[i], i, thorough)))
     });
     let (mut execs, mut points, mut distinct, mut done, mut maxpts) = (0u64, 0u64, 0u64, 0u64, 0u32);
     let mut wit: std::collections::BTreeMap<&str, u64> = Default::default();
     let mut capped = false;
     let mut samples = vec![];
-    for (i, r) in results.iter().enumerate() {
+    for (k, r) in results.iter().enumerate() {
+        let i = selected[k];
         let Some(st) = r else {
             capped = true;
             continue;
@@ -792,7 +1036,8 @@ pub fn run(args: &Args) -> Report {
         "distinct_nontrivial": distinct,
         "samples": samples,
         "rule": "a state is one complete execution (schedule) of one program of the family on the real scope::run!; transitions are scheduler choice points (next runnable task, select! start branch); all schedules with at most `deviation_bound` non-default choices; distinct = distinct event logs",
-        "programs": ps.len(),
+        "programs": selected.len(),
+        "programs_with_blocking_tasks_explored_under_the_blocking_gate": n_blocking_programs,
         "programs_completed": done,
         "deviation_bound": bound,
         "max_choice_points_per_execution": maxpts,
